@@ -152,6 +152,8 @@ impl Array {
                     }
                 });
 
+                // the delta has the summed dimensions collapsed into one, so give it the target dimensions
+                let x = x.reshape(target_clone.clone());
                 vec![Some(Array::sliced_op(
                     vec![&x],
                     &op,
